@@ -114,8 +114,9 @@ fn main_alphabet() -> Vec<S> {
         make("y", bin(Op::Or, E::Null, num("5"))),
         make("y", meth(st("abc"), "find", vec![num("5")])),
         make("y", E::Not(Box::new(E::Null))),
-        // a pure call that never returns
-        make("y", call("inf", vec![])),
+        // a callee that writes a captured variable without reading it (directly / one call down)
+        make("y", call("wr", vec![])),
+        make("t", call("wr2", vec![])),
     ]
 }
 
@@ -132,7 +133,8 @@ fn programs(body_len: u32, main_len: u32) -> Gen<Vec<S>> {
             func("r2", &[], vec![S::Ret(Some(call("r", vec![])))]),
             func("r3", &[], vec![S::Ret(Some(call("r2", vec![])))]),
             func("mw", &[], vec![S::If(bin(Op::Gt, var("x"), num("100")), vec![set("x", num("0"))], None)]),
-            func("inf", &[], vec![S::Ret(Some(call("inf", vec![])))]),
+            func("wr", &[], vec![set("x", num("7")), S::Ret(Some(num("1")))]),
+            func("wr2", &[], vec![S::Ret(Some(call("wr", vec![])))]),
             func("f", &["p"], body),
         ];
         p.extend(main);
@@ -208,6 +210,46 @@ pub fn dead_suffix_programs(dead_len: u32) -> Gen<Vec<S>> {
     })
 }
 
+/// Unused values computed by calls into call-graph cycles: pure, but a cycle can recurse until
+/// the stack overflows, and that error must not disappear with the unused value. (Kept out of
+/// the big alphabet: every overflowing run costs milliseconds.)
+fn recursive_callee_programs() -> Gen<Vec<S>> {
+    let defs = || -> Vec<S> {
+        vec![
+            func("inf", &[], vec![S::Ret(Some(call("inf", vec![])))]),
+            func("pa", &[], vec![S::Ret(Some(call("pb", vec![])))]),
+            func("pb", &[], vec![S::Ret(Some(bin(Op::Add, call("pa", vec![]), num("1"))))]),
+            func("fact", &["n"], vec![S::If(bin(Op::Lt, var("n"), num("2")), vec![S::Ret(Some(num("1")))], None), S::Ret(Some(bin(Op::Mul, var("n"), call("fact", vec![bin(Op::Sub, var("n"), num("1"))]))))]),
+            func("deep", &["n"], vec![S::If(bin(Op::Lt, var("n"), num("1")), vec![S::Ret(Some(num("0")))], None), S::Ret(Some(call("deep", vec![bin(Op::Add, var("n"), num("1"))])))]),
+        ]
+    };
+    let calls = vec![call("inf", vec![]), call("pa", vec![]), call("fact", vec![num("5")]), call("deep", vec![num("1")]), bin(Op::Add, num("1"), call("inf", vec![])), E::Arr(vec![call("pb", vec![])])];
+    let mut v: Vec<Vec<S>> = Vec::new();
+    for c in calls {
+        for ctx in 0..5u8 {
+            let mut p = defs();
+            p.push(make("x", num("0")));
+            p.push(shout(st("start")));
+            match ctx {
+                0 => p.push(make("y", c.clone())),
+                1 => {
+                    p.push(set("x", c.clone()));
+                    p.push(set("x", num("1")));
+                }
+                2 => p.push(func("host", &[], vec![make("y", c.clone()), S::Ret(Some(num("3")))])),
+                3 => p.push(S::Loop(bin(Op::Lt, var("x"), num("1")), vec![set("x", bin(Op::Add, var("x"), num("1"))), make("y", c.clone())])),
+                _ => p.push(S::If(bin(Op::Eq, var("x"), num("0")), vec![make("y", c.clone())], None)),
+            }
+            if ctx == 2 {
+                p.push(shout(call("host", vec![])));
+            }
+            p.push(shout(var("x")));
+            v.push(p);
+        }
+    }
+    Gen::of(v)
+}
+
 pub fn programs_for_c06(thorough: bool) -> Gen<Vec<S>> {
     if thorough { programs(2, 3) } else { programs(2, 2) }
 }
@@ -220,9 +262,11 @@ pub fn spaces(tier: Tier) -> Vec<Box<dyn Space>> {
         v.push(Box::new(PruneSpace { id: "prune-b2-m3".into(), generator: programs(2, 3), profile: Profile::Fast, twin: false }));
         v.push(Box::new(PruneSpace { id: "prune-b3-m2".into(), generator: programs(3, 2), profile: Profile::Fast, twin: false }));
     } else {
-        v.push(Box::new(PruneSpace { id: "prune-b1-m3".into(), generator: programs(1, 3), profile: Profile::Fast, twin: false }));
+        // main sequences of three over an empty function body (b1 x m3 is part of thorough's b2 x m3)
+        v.push(Box::new(PruneSpace { id: "prune-b0-m3".into(), generator: programs(0, 3), profile: Profile::Fast, twin: false }));
     }
     v.push(Box::new(PruneSpace { id: "prune-b1-m2".into(), generator: programs(1, 2), profile: Profile::Poison, twin: false }));
+    v.push(Box::new(PruneSpace { id: "recursive-callees".into(), generator: recursive_callee_programs(), profile: Profile::Fast, twin: false }));
     v.push(Box::new(PruneSpace { id: "dead-suffix".into(), generator: dead_suffix_programs(if t { 3 } else { 2 }), profile: Profile::Fast, twin: true }));
     v.push(Box::new(PruneSpace { id: "twin-b1-m2".into(), generator: programs(1, 2), profile: Profile::Fast, twin: true }));
     v
